@@ -297,7 +297,9 @@ def run(ctx):
     classes = {d: {} for d in DIALECTS}
     for d in DIALECTS:
         for kid, k in ctab[d].items():
-            classes[d].setdefault(k, []).append(kid)
+            # (a keyword of the grammar that the dialect's table lacks is reported by the `table` event; do not generate it)
+            if kid in tables[d]:
+                classes[d].setdefault(k, []).append(kid)
     nexh = len(shapes)
     rs = ctx.tlc('TokenList_MC', 'TokenList_MC_sim.cfg', workers=1, simulate='num=%d' % ctx.pick(400, 6000), extra=['-depth', '14', '-seed', str(ctx.seed + 7)],
                  tag='longer shapes (simulation)')
